@@ -30,7 +30,12 @@ Definition obs_ok (t : table) (o : top) (ob : obs) : option table :=
          end
   end.
 
-Record case := mkCase { c_rows : nat; c_cols : nat; c_widths : list N; c_ops : list (top * obs) }.
+(* c_grid0: the grid the table starts with when it is not the one create gives - a table as an opened document may
+   hold it: no grid at all (Some None), a grid shorter or longer than the rows (Some (Some ws)) *)
+Record case := mkCase { c_rows : nat; c_cols : nat; c_widths : list N; c_grid0 : option (option (list N)); c_ops : list (top * obs) }.
+Definition start_table (c : case) : table :=
+  let t0 := create (c_rows c) (c_cols c) (c_widths c) in
+  match c_grid0 c with None => t0 | Some g => mkTable g (rows t0) end.
 Fixpoint first_bad (t : table) (ops : list (top * obs)) (i : nat) : option nat :=
   match ops with
   | [] => None
@@ -39,7 +44,7 @@ Fixpoint first_bad (t : table) (ops : list (top * obs)) (i : nat) : option nat :
 Fixpoint mismatches_from (cs : list case) (k : nat) : list (nat * nat) :=
   match cs with
   | [] => []
-  | c :: rest => match first_bad (create (c_rows c) (c_cols c) (c_widths c)) (c_ops c) 0 with
+  | c :: rest => match first_bad (start_table c) (c_ops c) 0 with
                  | None => mismatches_from rest (S k)
                  | Some i => (k, i) :: mismatches_from rest (S k)
                  end
